@@ -23,6 +23,13 @@ def make_case(rng, multi):
         src += '\n'
     words = [w for w in re.findall(r'Q[a-z]+', src)]
     uniq = [w for w in words if words.count(w) == 1]
+    # some flagged words contain non-ASCII letters themselves (byte columns of xml-b differ from character columns inside the word)
+    for w in uniq[:]:
+        if rng.random() < 0.25 and re.search(re.escape(w) + r'(?![a-z])', src):
+            w2 = w[:2] + rng.choice(['ä', 'öß', 'ü']) + w[2:] + rng.choice(['', 'ß'])
+            m = re.search(re.escape(w) + r'(?![a-z])', src)
+            src = src[:m.start()] + w2 + src[m.end():]
+            uniq[uniq.index(w)] = w2
     rng.shuffle(uniq)
     flag = uniq[:rng.randint(1, 4) if not multi else rng.randint(4, 9)]
     return {'src': src, 'flag': flag, 'multi': multi}
@@ -31,7 +38,7 @@ def expected(case):
     tex = case['src'] if case['src'].endswith('\n') else case['src'] + '\n'
     exp = []
     for w in case['flag']:
-        off = re.search(re.escape(w) + r'(?![a-z])', tex).start()
+        off = re.search(re.escape(w) + r'(?![a-zäöüß])', tex).start()
         exp.append((off, len(w), w))
     exp.sort()
     return tex, exp
